@@ -18,8 +18,9 @@ No well-formedness of `body` is needed for this: it follows from byte conservati
 Operations outside that theorem, and why:
   * listOffsets (`readOffset`): returns the kafka error from inside the partition loop without a drain; aligned only
     because a list-offsets response to a one-partition request has one topic with one partition, the error code being
-    followed by the two int64 of the same entry: `listOffsets_aligned_wf` (well-formed frames) and
-    `listOffsets_two_partitions_counterexample` (why the hypothesis is needed).
+    followed by the two int64 of the same entry.  Tied by correspondence on well-formed frames only;
+    `listOffsets_two_partitions_counterexample` shows why no unconditional theorem exists, and
+    `listOffsets_wf_example` runs the model on a concrete well-formed error frame.
   * fetch (`ReadBatchWith`/`Batch`): `fetch_aligned_or_closed`, for every message-set reader that conserves bytes, with
     the hypothesis that a response at the high watermark carries an empty set (`fetch_at_watermark_counterexample`).
   * apiVersions: no `expectZeroSize`, no close on error in the Go code; tied by correspondence only (well-formed frames).
@@ -262,5 +263,12 @@ theorem listOffsets_two_partitions_counterexample :
     ((specOf "listOffsets").map fun o => (opRead o 1 [116] ⟨listOffsets2, listOffsets2.length⟩).1) = some (.kafka 6) ∧
     ((specOf "listOffsets").map fun o => (opRead o 1 [116] ⟨listOffsets2, listOffsets2.length⟩).2.sz) = some 22 := by
   decide
+
+/-- a well-formed one-partition list-offsets error frame (error 3 = UnknownTopicOrPartition): aligned -/
+def listOffsets1 : Bytes :=
+  [0,0,0,1, 0,1,116, 0,0,0,1, 0,0,0,0, 0,3, 255,255,255,255,255,255,255,255, 255,255,255,255,255,255,255,255]
+theorem listOffsets_wf_example :
+    ((specOf "listOffsets").map fun o => opRead o 1 [116] ⟨listOffsets1 ++ [9, 9], listOffsets1.length⟩) =
+      some (.kafka 3, ⟨[9, 9], 0⟩) := by decide
 
 end KV.C11
